@@ -207,3 +207,26 @@ def multi(rng, sid, kind, ln=None):
     if kind in ("range", "rangeref"):
         sc["start"] = rng.choice([0, 2, 9])
     return sc
+
+
+def tri(rng, sid, kind, ln=None):
+    """three parties: a pull in flight, a second pull queued behind it (possibly overshooting the end), and a third
+    thread that skips or queries twice - the situations in which a waiter, a publisher and an observer interact"""
+    if ln is None:
+        ln = rng.choice(ARRAY_LENS[2:]) if kind in ("array", "arrref") else rng.randrange(2, 8)
+    n = rng.choice([2, 3])
+    first = rng.choice([[{"op": "bnew", "n": n}, {"op": "bnext"}], [{"op": "chunk", "n": rng.choice([1, 2])}],
+                        [{"op": "next"}], [{"op": "bnew", "n": n}, {"op": "bnext", "take": 1}, {"op": "bnext"}]])
+    second = rng.choice([[{"op": "next"}], [{"op": "chunk", "n": ln + rng.choice([0, 1, 3])}], [{"op": "nextid"}],
+                         [{"op": "bnew", "n": n}, {"op": "bnext"}], [{"op": "foreach", "n": rng.choice([1, 2])}]])
+    third = rng.choice([[{"op": "skip"}], [{"op": "len"}, {"op": "len"}], [{"op": "hasmore"}, {"op": "hasmore"}, {"op": "next"}],
+                        [{"op": "len"}, {"op": "skip"}, {"op": "hasmore"}]])
+    threads = [first, second, third]
+    rng.shuffle(threads)
+    sc = {"id": sid, "kind": kind, "len": ln, "threads": threads, "policy": rng.choice(["rand", "sticky", "sticky"]),
+          "seed": rng.randrange(1 << 30), "post": [{"op": "hasmore"}, {"op": "values"}, {"op": "next"}, {"op": "intoseq"}]}
+    if kind in ("range", "rangeref"):
+        sc["start"] = rng.choice([0, 3])
+    if kind in TICKET_KINDS:
+        sc["hint"] = rng.choice(["exact", "exact", "inexact"])
+    return sc
